@@ -221,6 +221,59 @@ REGRESSIONS = {
            "fwd 31 10.0.0.1 " + C.hx(b'for=1.2.3.4;remote_user="", for=10.0.0.1')],
 }
 
+# ------------------------------------------------------------------------------------------------
+# srv->tmp_buf shared between h2.c (HPACK scratch, sized once per connection, asserted before use) and
+# mod_fastcgi.c (FCGI_STDERR logging): histories of both modules' operations on the one buffer
+# ------------------------------------------------------------------------------------------------
+H2_SCRATCH_MIN = 131072       # what h2_send_headers()/h2_send_headers_block() assert (decode asserts 65536)
+TMPB_REGRESSIONS = ["tmpb I E30:2 Q",            # attacker seed C12-c2: STDERR record, then a HEADERS frame on the open connection
+                    "tmpb I E30:2 X",
+                    "tmpb E5000:3 I E100:0 Q E65535:255 Q X"]
+
+
+def gen_tmpb(ctx):
+    rng = ctx.rng
+    L = list(TMPB_REGRESSIONS)
+    lens = [0, 1, 2, 30, 62, 63, 64, 65, 4094, 4095, 4096, 4097, 8191, 8192, 65534, 65535]
+    pads = [0, 0, 0, 1, 7, 8, 254, 255]
+
+    def rec(kind):
+        n = rng.choice(lens) if rng.random() < 0.7 else rng.randint(0, 65535)
+        return "%s%d:%d" % (kind, n, rng.choice(pads))
+    # exhaustive small scope: every history of length <= 4 over {I, X, Q, E(small), E(> reuse size), O}
+    import itertools
+    alpha = ["I", "X", "Q", "E30:2", "E5000:0", "O10:0"]
+    for k in (1, 2, 3, 4):
+        for combo in itertools.product(alpha, repeat=k):
+            o, ok = False, True
+            for c in combo:
+                if c == "I":
+                    o = True
+                elif c == "X":
+                    o = False
+                elif c == "Q" and not o:
+                    ok = False
+                    break
+            if ok:
+                L.append("tmpb " + " ".join(combo))
+    n = 600 if ctx.quick else 8000
+    for _ in range(n):
+        steps, o = [], False
+        for _ in range(rng.randint(1, 14)):
+            r = rng.random()
+            if r < 0.18:
+                steps.append("I"); o = True
+            elif r < 0.26:
+                steps.append("X"); o = False
+            elif r < 0.5 and o:
+                steps.append("Q")
+            elif r < 0.85:
+                steps.append(rec("E"))
+            else:
+                steps.append(rec("O"))
+        L.append("tmpb " + " ".join(steps))
+    return L
+
 
 def gen_s64(ctx):
     rng = ctx.rng
@@ -1004,7 +1057,36 @@ def oracle(line, out):
             if x <= U32MAX and n <= U32MAX - x and (n + x) * e <= SIZEMAX:
                 return "ck_realloc_u32 aborted although (n+x)*elt_sz is representable"
             return None
+        if op == "tmpb":
+            return ("assertion abort (force_assert on the size of the shared scratch buffer / buffer.c) in a history of "
+                    "h2 connection set-up, HEADERS frames and FastCGI records")
         return "assertion abort on untrusted input (%s)" % op
+    if op == "tmpb":
+        # independent statement: while an HTTP/2 connection exists the shared scratch buffer keeps the size h2.c
+        # asserts before HPACK coding; no module ever shrinks it; it stays bounded
+        m = re.match(r"^tb=([0-9,]+) used=(\d+)$", out)
+        if not m:
+            return None if out == "bad-op" else "tmpb: malformed harness output"
+        sizes = [int(x) for x in m.group(1).split(",")]
+        if len(sizes) != len(t) - 1:
+            return "tmpb: %d sizes for %d steps" % (len(sizes), len(t) - 1)
+        o, prev = False, 0
+        for st, sz in zip(t[1:], sizes):
+            if st == "I":
+                o = True
+            elif st == "X":
+                o = False
+            if o and sz < H2_SCRATCH_MIN:
+                return ("shared scratch buffer (srv->tmp_buf) is %d octets after step %s while an HTTP/2 connection is open: "
+                        "h2 asserts >= %d before HPACK coding (next HEADERS aborts the server)" % (sz, st, H2_SCRATCH_MIN))
+            if sz < prev:
+                return "shared scratch buffer shrunk from %d to %d octets at step %s" % (prev, sz, st)
+            if sz > 1 << 20:
+                return "shared scratch buffer grew to %d octets" % sz
+            prev = sz
+        if int(m.group(2)) > sizes[-1]:
+            return "scratch buffer used > size"
+        return None
     if op == "s64":
         v = C.unhx(t[1])
         rv, used = [int(x) for x in out.split(" ")]
@@ -1206,6 +1288,9 @@ def classify(line, out):
         return "buf:%s:%s" % ("".join(x[0] for x in t[1:])[:6], "abort" if out.endswith("abort") else "ok%d" % (int(out.split(" ")[-1].split("/")[1]).bit_length() // 4))
     if op == "ckr":
         return "ckr:" + out.split(" ")[0]
+    if op == "tmpb":
+        return "tmpb:%s:%s" % ("".join(x[0] + ("+" if x[0] in "EO" and int(x[1:].split(":")[0]) > 4095 else "") for x in t[1:])[:7],
+                               "abort" if out == "abort" else "ok%d" % (int(out.split(" ")[0][3:].split(",")[-1]).bit_length() if out.startswith("tb=") else 0))
     if op == "h2c":
         o = kv(out)
         return "h2c:%s:%s" % (o.get("goaway"), "0" if o.get("ret") == "0" else "n")
@@ -1233,7 +1318,8 @@ def classify(line, out):
 
 
 # ------------------------------------------------------------------------------------------------
-HARNESSES = {"h_arith": {}, "h_arith_h2": {}, "h_arith_px": {"libs": ("-lpcre2-8", "-lz", "-lm", "-ldl", "-lcrypt")}}
+HARNESSES = {"h_arith": {}, "h_arith_h2": {}, "h_arith_px": {"libs": ("-lpcre2-8", "-lz", "-lm", "-ldl", "-lcrypt")},
+             "h_arith_fcgi": {"libs": ("-lpcre2-8", "-lz", "-lm", "-ldl", "-lcrypt")}}
 
 
 def build_all(ctx):
@@ -1253,10 +1339,12 @@ def harness_of(line):
         return "h_arith"
     if op in ("h2f", "h2c", "h2h", "h2d", "prio"):
         return "h_arith_h2"
+    if op == "tmpb":
+        return "h_arith_fcgi"
     return "h_arith_px"
 
 
-MODELLED = ("s64", "ck1", "ck2", "hoff", "buf", "ckr", "h2c", "h2d", "gwd", "gws", "h1d", "h1s", "rng")
+MODELLED = ("s64", "ck1", "ck2", "hoff", "buf", "ckr", "h2c", "h2d", "gwd", "gws", "h1d", "h1s", "rng", "tmpb")
 
 
 def run(ctx):
@@ -1264,6 +1352,8 @@ def run(ctx):
     if exes is None:
         return
     a, h2, px = exes["h_arith"], exes["h_arith_h2"], exes["h_arith_px"]
+    stream(ctx, "scratch-buffer-histories(h2_init_con,h2_parse_frames,fcgi_recv_parse_loop)", [exes["h_arith_fcgi"]], "arith",
+           gen_tmpb(ctx), oracle, classify)
     stream(ctx, "strtoint64(li_restricted_strtoint64)", [a], "arith", gen_s64(ctx), oracle, classify)
     stream(ctx, "chunk-size(h1_chunked,http_chunk_decode)", [a], "arith", gen_ck(ctx), oracle, classify)
     stream(ctx, "gw-dechunk-multiread(http_chunk_decode_append_data)", [a], "arith", gen_gw(ctx), oracle, classify)
